@@ -137,6 +137,27 @@ def locked_invariants(ctx, k, names, where, expect_refuse_sign=True):
             pass
         except Exception as e:
             ctx.outcome('locked_sign_error:' + type(e).__name__)
+    # every other operation that needs the secret: none of them may produce anything from a locked key
+    ops = [('sign-none', lambda: k.sign(None)), ('revoke-key', lambda: k.revoke(k)), ('direct', lambda: k.certify(k))]
+    if k.userids:
+        ops += [('certify-own-uid', lambda: k.certify(k.userids[0])), ('revoke-uid', lambda: k.revoke(k.userids[0]))]
+    if k.subkeys:
+        sk0 = list(k.subkeys.values())[0]
+        ops += [('revoke-subkey', lambda: k.revoke(sk0)), ('bind', lambda: k.bind(sk0, crosssign=False)), ('subkey-sign', lambda: sk0.sign('x'))]
+    for name, f in ops:
+        ctx.count('locked_operations_tried')
+        try:
+            with warnings.catch_warnings():
+                warnings.simplefilter('ignore')
+                r_ = f()
+            ctx.fail('private-operation-on-locked-key-succeeded', {'where': where, 'op': name, 'result': hx(bytes(r_))[:60] if r_ is not None else None})
+        except PGPError:
+            ctx.count('locked_operations_refused')
+        except Exception as e:
+            # refused in the sense that nothing came out, but not by the lock check: the operation got as far as the (absent) secret
+            ctx.outcome('locked_%s_error:%s' % (name, type(e).__name__))
+            if expect_refuse_sign and name in ('revoke-key', 'revoke-uid', 'revoke-subkey', 'direct', 'certify-own-uid', 'sign-none', 'bind'):
+                ctx.fail('locked-key-operation-reached-the-secret', {'where': where, 'op': name, 'error': '%s: %s' % (type(e).__name__, str(e)[:100])})
 
 
 def run_case(ctx, d):
@@ -333,6 +354,17 @@ def _foreign(ctx, d, pgpy):
         ctx.fail('foreign-protected-key-cannot-be-unlocked', {'case': d, 'err': '%s: %s' % (type(e).__name__, str(e)[:200])})
         return
     locked_invariants(ctx, k, [d['key']], 'foreign after scope', expect_refuse_sign=m['alg'] in (1, 17, 19, 22))
+    # unlocking and leaving the scope changes nothing in what is stored: the secret-key packet is exported as it arrived, also the second time
+    for again in range(2):
+        first = wire.split(bytes(k))[0]
+        if first.raw != raw:
+            ctx.fail('foreign-protected-key-reexport-differs', {'case': d, 'after': 'unlock scope %d' % (again + 1), 'lens': [len(raw), len(first.raw)], 'tail_in': hx(raw[-12:]), 'tail_out': hx(first.raw[-12:])})
+            break
+        try:
+            with k.unlock(right):
+                pass
+        except Exception:
+            break
     ctx.nontrivial(d)
 
 
